@@ -42,6 +42,12 @@ instance : Monad Res where
   pure := ok
   bind := bind
 
+@[simp] theorem bind_ok {α β} (a : α) (f : α → Res β) : (Res.ok a).bind f = f a := rfl
+@[simp] theorem bind_err {α β} (e : String) (l : Nat) (as : List Bytes) (f : α → Res β) :
+    (Res.err e l as : Res α).bind f = .err e l as := rfl
+@[simp] theorem bind_panic {α β} (w : String) (f : α → Res β) : (Res.panic w : Res α).bind f = .panic w := rfl
+@[simp] theorem bind_oof {α β} (f : α → Res β) : (Res.oof : Res α).bind f = .oof := rfl
+
 def isPanic {α} : Res α → Bool
   | panic _ => true
   | _ => false
